@@ -41,7 +41,8 @@ def strategy_case(draw):
             N = list(x["N"])
             N[ax] = draw(st.integers(1, 4))
             others.append(draw(gen.tt_spec(N=N, dt=dt, mode=mode)))
-        return {"op": op, "x": x, "others": others, "axis": ax, "container": draw(st.sampled_from(["tuple", "list"]))}
+        return {"op": op, "x": x, "others": others, "axis": ax, "container": draw(st.sampled_from(["tuple", "list"])),
+                "argform": draw(gen.int_form(("neg", "np")))}
     if op == "pad":
         x = draw(gen.tt_spec(dmin=1, dmax=4, sizes=SZ, dt=dt, mode=mode, maxnumel=400))
         d = len(x["N"])
@@ -74,6 +75,7 @@ def strategy_case(draw):
         case["form"] = form
         case["rows"] = [draw(st.integers(1, 5)) for _ in ms]
         case["fseed"] = draw(gen.SEED)
+        case["argform"] = draw(gen.int_form(("neg", "np") if form == "single" else ("neg", "np", "tuple")))
     return case
 
 
@@ -131,7 +133,16 @@ def execute(case):
         ocs = [core.make_cores(o) for o in case["others"]]
         tts = [x] + [T.TT(core.clone_cores(c)) for c in ocs]
         arg = tuple(tts) if case["container"] == "tuple" else list(tts)
-        res = lib(lambda: T.cat(arg, ax))
+        form = case.get("argform", "plain")
+        if form != "plain":
+            ck.label("argform:" + form)
+            try:
+                res = lib(lambda: T.cat(arg, gen.apply_int_form([ax], form, d, scalar=True)))
+            except core.LibraryException:
+                ck.label("argform_rejected")
+                return ck.verdict()
+        else:
+            res = lib(lambda: T.cat(arg, ax))
         ref = torch.cat([xd] + [dense(c) for c in ocs], ax)
         ref_abs = torch.cat([xa] + [dense_abs(c) for c in ocs], ax)
         ck.label("cat:n=%d" % len(tts), "cat:axis=%s" % ("first" if ax == 0 else ("last" if ax == d - 1 else "middle")))
@@ -226,11 +237,20 @@ def execute(case):
             cur[m] = l
         if len(set(ms)) < len(ms):
             ck.label("mprod:repeated_mode")
-        if case["form"] == "single":
-            res = lib(lambda: x.mprod(facs[0].clone(), ms[0]))
-        else:
-            ck.label("mprod:list")
-            res = lib(lambda: x.mprod([f.clone() for f in facs], list(ms)))
+        aform = case.get("argform", "plain")
+        try:
+            if case["form"] == "single":
+                res = lib(lambda: x.mprod(facs[0].clone(), gen.apply_int_form(ms, aform, d, scalar=True)))
+            else:
+                ck.label("mprod:list")
+                res = lib(lambda: x.mprod([f.clone() for f in facs], gen.apply_int_form(ms, aform, d)))
+        except core.LibraryException:
+            if aform == "plain":
+                raise
+            ck.label("argform:" + aform, "argform_rejected")
+            return ck.verdict()
+        if aform != "plain":
+            ck.label("argform:" + aform)
         ref, ref_abs = xd, xa
         for f, m in zip(facs, ms):
             ref = torch.movedim(torch.tensordot(core.widen(f), ref, dims=([1], [m])), 0, m)
